@@ -568,6 +568,8 @@ def auto_pristine(module):
             continue
         if getattr(fn, "_auto_pristine", False) or fn.__module__ != module.__name__:
             continue
+        if "pristine_eval" in fn.__code__.co_names or "pristine_call" in fn.__code__.co_names:
+            continue        # manages its own pristine processes (several forks of the pristine state in one replay)
         impl_name = name + "__impl"
         fn.__name__ = impl_name
         fn.__qualname__ = impl_name
@@ -630,7 +632,7 @@ def _encoding_limit(e):
     """exceptions that mean 'the symbolic encoding does not cover this construct' (not a failure of the code under test)"""
     if isinstance(e, NotImplementedError):
         return True
-    if isinstance(e, RuntimeError) and "symbolic branch outside an Explorer" in str(e):
+    if isinstance(e, RuntimeError) and ("symbolic branch outside an Explorer" in str(e) or "path budget exceeded" in str(e)):
         return True
     if isinstance(e, z3.Z3Exception):
         return True
